@@ -39,4 +39,94 @@ theorem parse_rootname (n : String) (h : validName n = true) : parseEmdpathWrite
   simp only [parseEmdpathWrite, hne, Bool.false_eq_true, if_false, hhead, splitSlash_no_slash n h2]
   rfl
 
+/-- `'/'.join(names)` on character lists -/
+def joinChars : List String → List Char
+  | [] => []
+  | [n] => n.toList
+  | n :: m :: r => n.toList ++ '/' :: joinChars (m :: r)
+
+def joinPath (names : List String) : String := String.ofList (joinChars names)
+
+theorem splitAux_prefix : ∀ (pre cs acc : List Char), '/' ∉ pre →
+    splitAux '/' (pre ++ '/' :: cs) acc = (acc.reverse ++ pre) :: splitAux '/' cs []
+  | [], cs, acc, _ => by simp [splitAux]
+  | c :: pre, cs, acc, h => by
+    simp only [List.mem_cons, not_or] at h
+    have hc : ¬ c = '/' := fun e => h.1 e.symm
+    simp only [List.cons_append, splitAux, hc, if_false]
+    rw [splitAux_prefix pre cs (c :: acc) h.2]
+    simp
+
+/-- splitting a joined path gives the names back, when no name contains a '/' -/
+theorem split_join : ∀ (names : List String), names ≠ [] → (∀ n ∈ names, hasSlash n = false) →
+    (splitAux '/' (joinChars names) []).map String.ofList = names
+  | [], h, _ => absurd rfl h
+  | [n], _, hs => by
+    have hn : '/' ∉ n.toList := by simpa [hasSlash] using hs n (by simp)
+    simp [joinChars, splitAux_no_slash n.toList [] hn, String.ofList_toList]
+  | n :: m :: r, _, hs => by
+    have hn : '/' ∉ n.toList := by simpa [hasSlash] using hs n (by simp)
+    simp only [joinChars]
+    rw [splitAux_prefix n.toList _ [] hn]
+    simp only [List.reverse_nil, List.nil_append, List.map_cons, String.ofList_toList]
+    rw [split_join (m :: r) (by simp) (fun x hx => hs x (List.mem_cons_of_mem _ hx))]
+
+theorem eraseP_none_empty : ∀ (l : List String), (∀ n ∈ l, n ≠ "") → l.eraseP (· == "") = l
+  | [], _ => rfl
+  | x :: xs, h => by
+    have hx : (x == "") = false := by simpa using h x (by simp)
+    simp only [List.eraseP_cons, hx, cond_false]
+    rw [eraseP_none_empty xs (fun n hn => h n (List.mem_cons_of_mem _ hn))]
+
+theorem joinChars_head (n : String) (rest : List String) (hn : n ≠ "") (hs : hasSlash n = false) :
+    (joinChars (n :: rest)).head? ≠ some '/' := by
+  have hne : n.toList ≠ [] := by
+    intro e
+    apply hn
+    have := congrArg String.ofList e
+    simpa [String.ofList_toList] using this
+  have hnot : '/' ∉ n.toList := by simpa [hasSlash] using hs
+  cases hl : n.toList with
+  | nil => exact absurd hl hne
+  | cons c cs =>
+    have hc : c ≠ '/' := by
+      intro e; apply hnot; rw [hl, e]; simp
+    cases rest with
+    | nil => simp [joinChars, hl, hc]
+    | cons m r => simp [joinChars, hl, hc]
+
+/-- `emdpath = 'root/a/b'` names the node a/b of the tree `root` -/
+theorem parse_path (root : String) (names : List String) (h : ∀ n ∈ root :: names, validName n = true) :
+    parseEmdpathWrite (joinPath (root :: names)) = some (root, names) := by
+  have hv : ∀ n ∈ root :: names, n ≠ "" ∧ hasSlash n = false := by
+    intro n hn
+    have := h n hn
+    simp only [validName, Bool.and_eq_true, decide_eq_true_eq, Bool.not_eq_true'] at this
+    exact ⟨this.1.1, this.1.2⟩
+  have hroot := hv root (by simp)
+  have hchars : (joinPath (root :: names)).toList = joinChars (root :: names) := by simp [joinPath]
+  have hne : (joinPath (root :: names)).isEmpty = false := by
+    cases he : (joinPath (root :: names)).isEmpty with
+    | false => rfl
+    | true =>
+      have := String.isEmpty_iff.mp he
+      have h2 := congrArg String.toList this
+      rw [hchars] at h2
+      have := joinChars_head root names hroot.1 hroot.2
+      rw [h2] at this
+      -- the joined path of a non-empty root name is not empty
+      cases hl : root.toList with
+      | nil =>
+        exfalso; apply hroot.1
+        have := congrArg String.ofList hl
+        simpa [String.ofList_toList] using this
+      | cons c cs =>
+        cases names with
+        | nil => simp [joinChars, hl] at h2
+        | cons m r => simp [joinChars, hl] at h2
+  have hhead := joinChars_head root names hroot.1 hroot.2
+  have hsplit := split_join (root :: names) (by simp) (fun n hn => (hv n hn).2)
+  simp only [parseEmdpathWrite, hne, Bool.false_eq_true, if_false, hchars, hhead, splitSlash, hsplit]
+  rw [eraseP_none_empty names (fun n hn => (hv n (List.mem_cons_of_mem _ hn)).1)]
+
 end EmdModel
